@@ -60,6 +60,7 @@ class Run:
         self.evidence_dir = os.environ.get('VERIF_EVIDENCE_DIR', os.path.join(VERIF, 'evidence'))
         self.quiet_evidence = False
         self.fallbacks = []       # [(name, callable() -> cex dict)]: bounded replay on the REAL code, used only when a unit is undecided
+        self.explorations = []    # [(name, callable() -> cex dict)]: bounded search on the REAL code run in addition to the proof (never counted as an obligation)
 
     # ------------------------------------------------------------------
     def note_functions(self, snippets):
@@ -129,6 +130,25 @@ class Run:
                 violations.append(f)
         code = 0
         lines = []
+        explored = set()
+        if self.tier == 'thorough':
+            # thorough tier: the bounded real-code searches that are fallbacks in the quick tier always run
+            names = set(n for (n, _) in self.explorations)
+            self.explorations += [(n, f) for (n, f) in self.fallbacks if n not in names]
+        for (name, fn) in self.explorations:
+            # bounded exploration of the real code next to the proof: it covers what the contracts assume (callers, lexing, arms
+            # outside the verified fragment). A failing input is a violation; finding none proves nothing and is not counted.
+            try:
+                cex = fn()
+            except Exception as e:
+                cex = {"found": False, "note": "exploration failed to run: %r" % (e,)}
+            explored.add(name)
+            self.extra.setdefault("bounded_exploration_not_counted", []).append({"name": name, "found": bool(cex and cex.get("found")), "note": (cex or {}).get("note") or (cex or {}).get("verdict")})
+            if cex and cex.get("found"):
+                violations.append({"key": "%s|replay-on-real-code|%s" % (name, str(cex.get("verdict", ""))[:80]), "backend": "replay (bounded search on the real code)",
+                                   "detail": {"msg": "bounded exploration of the real code found a failing input"}, "cex": cex})
+                self.n_obl += 1
+        self.fallbacks = [(n, f) for (n, f) in self.fallbacks if n not in explored]
         if self.undecided and not violations and self.fallbacks:
             # The deductive unit could not be assembled/decided (e.g. the code under contract was restructured). Before
             # answering "undecided", run the bounded replay search on the real code: a concrete failing input found there
